@@ -7,6 +7,7 @@ open DendroModel DendroModel.C06
   sched THETA R il ia uw  NARR arrival*  NFILES assign*  (NTREES trec*)*   -> par: res [dump]  ser: res [dump]
  op   := new R il ia uw | add d TREC | ins d i TREC | upd d s | ext d s | iadd d s | plus a b
  TREC := R W leafset K (split len age)*K        R in N,T,F; W,len,age exact rationals or N
+ schedb / asyncf: see `pSchedB`, `pAsyncF` (burn-in inside the model; failing reads; what every worker posts)
  dump := flat token stream, see `dumpTA` -/
 
 abbrev P := StateT (List String) Option
@@ -135,6 +136,46 @@ def pAsync : P String := do
     | some x => rRun (Q.ofFrac theta) x
   pure (join (taken ++ res))
 
+/-- `schedb THETA BURNIN R il ia uw NARR arrival* NFILES assign* (NTREES trec*)*` (the files complete, the burn-in applied by the
+    model's reading loop)  -> par: res [dump]  ser: res [dump] -/
+def pSchedB : P String := do
+  let theta ← pFrac
+  let burnin ← pNat
+  let r ← pRooting; let f ← pFlags
+  let na ← pNat; let arrival ← pRep pNat na
+  let nf ← pNat; let assign ← pRep pNat nf
+  let files ← pRep (do let k ← pNat; pRep pTRec k) nf
+  let rest ← get
+  if !rest.isEmpty then failure
+  pure (join (rRun (Q.ofFrac theta) (runParallelB burnin r f assign arrival files)
+              ++ rRun (Q.ofFrac theta) (runSerialB burnin r f files)))
+
+/-- `asyncf THETA BURNIN R il ia uw NW NCH choice* NARR arrival* NFILES (NTREES trec*)*`: the end-marker protocol with failing
+    reads, per-file burn-in in the workers, re-raising collation
+    -> NW (K taken*)*  NW posted*  (`hang` | res [dump])  `S` serial-res     (posted = `ok` or the exception a worker posts) -/
+def pAsyncF : P String := do
+  let theta ← pFrac
+  let burnin ← pNat
+  let r ← pRooting; let f ← pFlags
+  let nw ← pNat
+  let nc ← pNat; let choices ← pRep pNat nc
+  let na ← pNat; let arrival ← pRep pNat na
+  let nf ← pNat
+  let files ← pRep (do let k ← pNat; pRep pTRec k) nf
+  let rest ← get
+  if !rest.isEmpty then failure
+  let wf := workerFiles burnin files
+  let fin := finalPF (failsOf r f wf) nw wf.length choices
+  let taken := rList (fun w => rList (fun k => [toString k]) w.taken) fin.ws
+  let posted := rList (fun i => [match postedBy r f fin wf i with | .ok _ => "ok" | .error e => rErr e]) (List.range nw)
+  let res := match runAsyncFB burnin r f nw choices arrival files with
+    | none => ["hang"]
+    | some x => rRun (Q.ofFrac theta) x
+  let ser := match runSerialB burnin r f files with
+    | .ok _ => "ok"
+    | .error e => rErr e
+  pure (join (taken ++ posted ++ res ++ ["S", ser]))
+
 def handle (ws : List String) : String :=
   match ws with
   | "hist" :: rest => match pHist.run rest with
@@ -144,6 +185,12 @@ def handle (ws : List String) : String :=
     | some (s, _) => s
     | none => "bad-op"
   | "async" :: rest => match pAsync.run rest with
+    | some (s, _) => s
+    | none => "bad-op"
+  | "schedb" :: rest => match pSchedB.run rest with
+    | some (s, _) => s
+    | none => "bad-op"
+  | "asyncf" :: rest => match pAsyncF.run rest with
     | some (s, _) => s
     | none => "bad-op"
   | _ => "bad-op"
